@@ -240,3 +240,189 @@ def generator_support_suite(chk, w, rule, maxlen, orders=(0, 1, 2, 3), ns=None, 
                     cs.expect(fg, "both construction routes (knots alone / knots plus an equal grid object) give the "
                                   "same functions", case, r2, same, "identical supports and coefficients")
     return cs.flush()
+
+
+# ------------------------------------------------------------------------------------------------
+# C12 (structural clause): the linear system interpolate() assembles IS the system of the promised conditions
+# ------------------------------------------------------------------------------------------------
+def _rref(rows):
+    """Reduced row echelon form over the rationals (rows: lists of Fraction); zero rows dropped."""
+    rows = [list(r) for r in rows]
+    out, col, ncol = [], 0, len(rows[0]) if rows else 0
+    r = 0
+    while r < len(rows) and col < ncol:
+        piv = next((i for i in range(r, len(rows)) if rows[i][col] != 0), None)
+        if piv is None:
+            col += 1
+            continue
+        rows[r], rows[piv] = rows[piv], rows[r]
+        pv = rows[r][col]
+        rows[r] = [x / pv for x in rows[r]]
+        for i in range(len(rows)):
+            if i != r and rows[i][col] != 0:
+                f = rows[i][col]
+                rows[i] = [a - f * b for a, b in zip(rows[i], rows[r])]
+        r += 1
+        col += 1
+    return [tuple(x) for x in rows[:r]]
+
+
+def _in_rowspace(basis_rref, row):
+    return len(_rref([list(r) for r in basis_rref] + [list(row)])) == len(basis_rref)
+
+
+def interp_system_suite(chk, w, rule, nmax=4, orders=(1, 2, 3), ns=None, fixed=True, spacings=(1, 2, 3, 5, 7)):
+    from fractions import Fraction as Fr
+    import math
+    from . import interp as _ip
+    cs = Cases(chk, rule, w)
+    w.I.allow_const_scaling = True
+    brec = w.I.find_record("bspline::interpolation::Boundary<%s>" % w.T)
+    if brec is None:
+        raise AnalysisBroken("anchor vanished: Boundary<T> not instantiated")
+    for order in orders:
+        f = w.free("bspline::interpolation::interpolate",
+                   lambda f: ("Spline<%s, %d>" % (w.T, order)) in f.decl["rtype"] and "RecSolver<" in f.qn,
+                   required=False)
+        if f is None:
+            raise AnalysisBroken("anchor vanished: interpolate<T,%d,RecSolver> not instantiated" % order)
+        NC = order + 1
+        base = [(FIRST if i % 2 == 0 else LAST, i // 2 + 1) for i in range(order - 1)]
+        full = [tuple(c) for c in itertools.product([(nd, dv) for nd in (FIRST, LAST) for dv in range(1, order + 1)],
+                                                    repeat=order - 1)]
+        for m in _ns(2, nmax, ns):
+            sp_sets = list(itertools.product(spacings[:order + 1], repeat=m - 1))
+            if len(sp_sets) > 40:
+                # every spacing value at every position, plus a spread of mixed tuples
+                sp_sets = [t for i, t in enumerate(sp_sets) if i % max(1, len(sp_sets) // 40) == 0 or len(set(t)) == 1]
+            for si, spc in enumerate(sp_sets):
+                for lead in ((0, 1) if si % 5 == 0 else (0,)):   # the support as a window of a larger grid
+                    xs = [Fr(0)]
+                    for h in ([4] * lead) + list(spc) + ([6] * lead):
+                        xs.append(xs[-1] + h)
+                    pts = [Sc(v, frozenset([("grid", i)])) for i, v in enumerate(xs)]
+                    grid = w.need_grid(pts)
+                    sup = w.need_support(grid, lead, lead + m)
+                    node = xs[lead:lead + m]
+                    specs = [tuple(base)] + ([b for i, b in enumerate(full) if b != tuple(base) and
+                                              (len(full) <= 40 or i % (len(full) // 40) == 0)] if si < 3 else [])
+                    for spec in specs:
+                        items = []
+                        for j, (nd, dv) in enumerate(spec):
+                            o_ = Obj(brec["qn"], brec)
+                            o_.fields = {"node": _node(w, nd), "derivative": dv, "value": Sc.atom(("bv", j))}
+                            items.append(o_)
+                        ys = Vec([Sc.atom(("y", k)) for k in range(m)])
+                        del w.I.rec_solvers[:]
+                        ncmp = _ip.N_SC_CMP[0]
+                        o = w.call(f, None, [box(sup), box(ys), box(Arr(items))])
+                        ncmp = _ip.N_SC_CMP[0] - ncmp
+                        case = dict(order=order, nodes=m, spacings=list(spc), window_offset=lead,
+                                    boundaries=[("FIRST" if a == FIRST else "LAST", b) for a, b in spec])
+                        ok, why = _system_ok(w, o, order, m, node, spec, ncmp)
+                        cs.expect(f, "the assembled linear system is equivalent to: the piece of every interval takes the "
+                                     "ordinates at both of its nodes; derivatives 1..order-1 agree at every interior node; "
+                                     "every boundary condition holds; and the result is the solver's solution", case, o, ok,
+                                  "(%s)" % why)
+    return cs.flush()
+
+
+def _system_ok(w, o, order, m, node, spec, ncmp):
+    from fractions import Fraction as Fr
+    import math
+    NC = order + 1
+    size = NC * (m - 1)
+    if o.kind != "val" or not isinstance(val(o.v), Obj):
+        return False, repr(o)
+    if not w.I.rec_solvers:
+        return False, "no solver was constructed"
+    if len(w.I.rec_solvers) != 1:
+        return False, "%d solvers were constructed" % len(w.I.rec_solvers)
+    mdl = w.I.rec_solvers[-1]
+    if mdl.n != size:
+        return False, "the system has %d unknowns, %d = (order+1)*(intervals) are needed" % (mdl.n, size)
+    if ncmp:
+        return False, "the assembly compares scalar values (%d comparisons): its entries are not polynomials of the " \
+                      "spacings" % ncmp
+    # which unknown is which coefficient: read off the result
+    v = spline_view(w, val(o.v))
+    if v is None:
+        return False, "result not observable"
+    (s_, e_), table, ncoef, _sup = v
+    colof = {}
+    for I in range(m - 1):
+        arr = table.get(s_ + I)
+        if arr is None or len(arr) != NC:
+            return False, "result has no piece for interval %d" % I
+        for p, x in enumerate(arr):
+            fm = x.form() if isinstance(x, Sc) else None
+            if not fm or len(fm) != 1:
+                return False, "coefficient %d of interval %d is not one of the solver's unknowns" % (p, I)
+            (atom, q), = fm.items()
+            if atom is None or atom[0] != "u" or q != 1:
+                return False, "coefficient %d of interval %d is %s" % (p, I, fm)
+            colof[(I, p)] = atom[1]
+    if sorted(colof.values()) != list(range(size)):
+        return False, "the result does not use every unknown exactly once"
+    atoms = [("y", k) for k in range(m)] + [("bv", j) for j in range(len(spec))]
+    aidx = {a: size + i for i, a in enumerate(atoms)}
+    width = size + len(atoms)
+    # actual augmented matrix, columns reordered to (interval, power)
+    pos = {col: I * NC + p for (I, p), col in colof.items()}
+    rows = {}
+    for (i, j), x in mdl.M.items():
+        if not isinstance(x, Sc) or x.v is None or x.v == NAN:
+            return False, "matrix entry (%d,%d) is %r" % (i, j, x)
+        rows.setdefault(i, [Fr(0)] * width)[pos[j]] = Fr(x.v)
+    for i, x in mdl.b.items():
+        fm = x.form() if isinstance(x, Sc) else None
+        if fm is None and isinstance(x, Sc) and x.v is not None and x.v != NAN and not x.deps:
+            fm = {None: Fr(x.v)}
+        if fm is None:
+            return False, "right-hand side %d is %r" % (i, x)
+        r = rows.setdefault(i, [Fr(0)] * width)
+        for a, q in fm.items():
+            if a is None:
+                if q != 0:
+                    return False, "right-hand side %d has the constant part %s" % (i, q)
+                continue
+            if a not in aidx:
+                return False, "right-hand side %d depends on %s" % (i, a)
+            r[aidx[a]] = -Fr(q)     # row: sum M c - b = 0
+    actual = _rref(list(rows.values())) if rows else []
+    # expected conditions
+    h = [(node[I + 1] - node[I]) / 2 for I in range(m - 1)]
+    fr = lambda p, d: Fr(math.factorial(p), math.factorial(p - d))
+    exp = []
+
+    def row(desc):
+        r = [Fr(0)] * width
+        exp.append((desc, r))
+        return r
+    for I in range(m - 1):
+        for side, k, t in (("left", I, -h[I]), ("right", I + 1, h[I])):
+            r = row("piece %d takes y[%d] at its %s node" % (I, k, side))
+            for p in range(NC):
+                r[I * NC + p] = t ** p
+            r[aidx[("y", k)]] = Fr(-1)
+    for k in range(1, m - 1):
+        for d in range(1, order):
+            r = row("derivative %d is continuous at interior node %d" % (d, k))
+            for p in range(d, NC):
+                r[(k - 1) * NC + p] = fr(p, d) * h[k - 1] ** (p - d)
+                r[k * NC + p] = -fr(p, d) * (-h[k]) ** (p - d)
+    for j, (nd, dv) in enumerate(spec):
+        first = nd == FIRST
+        I, t = (0, -h[0]) if first else (m - 2, h[m - 2])
+        r = row("boundary condition %d: derivative %d at the %s node" % (j, dv, "first" if first else "last"))
+        for p in range(dv, NC):
+            r[I * NC + p] = fr(p, dv) * t ** (p - dv)
+        r[aidx[("bv", j)]] = Fr(-1)
+    expected = _rref([r for _, r in exp])
+    if actual == expected:
+        return True, ""
+    for desc, r in exp:
+        if not _in_rowspace(actual, r):
+            return False, "not implied by the assembled system: %s" % desc
+    return False, "the assembled system contains a condition that was not asked for (%d independent rows, %d expected)" % (
+        len(actual), len(expected))
